@@ -68,7 +68,7 @@ func buildHistory(c *core.Ctx, prop string, idx int, kind string) *histCase {
 	hc := &histCase{idx: idx, kind: kind, textMode: idx%2 == 0}
 	h := gen.NewHist(r, hc.textMode)
 	h.MaxTables = r.Range(1, 4)
-	st := model.Style{KwCase: r.Intn(3), WS: r.Intn(3), R: r}
+	st := model.Style{KwCase: r.Intn(3), WS: r.Intn(3), ZeroPad: r.Chance(1, 3), R: r}
 	hc.add(proto.Op{K: "cfg", N: 1}, opMeta{kind: "other"})
 	hc.other("init")
 	hc.add(proto.Op{K: "sql", SQL: "CREATE DATABASE d1"}, opMeta{kind: "other"})
